@@ -12,7 +12,8 @@ RULE = ("half of the grammars come from the C01 generator (kept when not left re
         "generator that constructs LL(1) candidates (alternatives starting with different terminals, "
         "one nullable alternative, nullable symbols in front of and at the end of productions, right "
         "recursion; plus a family where a nullable symbol occurs in two contexts with different "
-        "followers behind another nullable symbol) filtered by the harness' own FIRST/FOLLOW/predict computation. Inputs: random "
+        "followers behind another nullable symbol, and a family where two symbols "
+        "share an identical alternative ending in a nullable symbol) filtered by the harness' own FIRST/FOLLOW/predict computation. Inputs: random "
         "derivations (members) and single-token edits / random strings, each classified by an "
         "independent Earley recogniser. Oracles: (a) LL(1)-as-written => is_ambiguous() False for both "
         "smart_factorization values; (b) is_ambiguous() False => accepted iff member, ParsingError "
@@ -52,6 +53,12 @@ def make_case(rng):
         else:
             prods = gram.gen_grammar(rng, terms, max_alts=rng.choice([3, 4, 4, 6, 7]))
             kind = "random"
+    elif r < 0.62 and r >= 0.55 and len(terms) >= 4:
+        kind = "ll1-shared-rhs"
+        for _ in range(8):
+            prods = gram.gen_shared_rhs_candidate(rng, terms)
+            if not gram.left_recursion_cycle(prods) and gram.is_ll1(prods, 'E'):
+                break
     elif r < 0.55 and len(terms) >= 4:
         kind = "ll1-follow-context"
         for _ in range(8):
@@ -154,6 +161,14 @@ def run_case(ctx, mon, cfg_id, terms, prods, inputs_spec=None, rng=None):
                 ctx.nontrivial(sig_of([gram.fmt_grammar(prods), toks, smart]))
         if len(verdicts) == 2 and verdicts[True] != verdicts[False]:
             ctx.violation("factorization-settings-disagree", {"verdicts": str(verdicts), "tokens": toks}, case)
+    # the conflict report is a property of the grammar: parsing texts must not change it
+    for smart, parser in parsers.items():
+        ctx.count("conflict_report_asked_again_after_parsing")
+        if bool(parser.is_ambiguous()) != amb[smart]:
+            ctx.violation("conflict-report-changes-after-parsing",
+                          {"smart": smart, "before": amb[smart], "after": bool(parser.is_ambiguous()), "ll1": ll1},
+                          dict(base_case, inputs=[list(x[:1]) + [x[1], [list(y) for y in x[2]], x[3]]
+                                                  for x in inputs_spec]))
     return inputs_spec
 
 
